@@ -491,6 +491,7 @@ func init() {
 			c.SigningRootProvenance("C08")
 			c.ServicePositions("C08")
 			c.ScatterIndexDiscipline("C08")
+			c.ScatterPartition("C08")
 			c.RulerPositions("C08")
 			c.HandlerSignature("C08")
 			c.SuccessNeedsEverything("C08") // position i of the signature list is the signature made for request i (C06.O2/O3)
@@ -498,6 +499,6 @@ func init() {
 			c.ForkJoinRules("C08")
 		},
 		Explanation: "Provenance and position, not cryptography: every rules-data field is filled from the same-named field of the request (sibling handlers agree); every field of the hashed container comes from the same-named field of the checked data of the same position; the signing root is HashTreeRoot{DataRoot, Domain} over that root and that data's domain; Sign receives it and the account resolved for that position; lists have one slot per request and are accessed only at the loop's / worker's own index; the signature of position i is copied to response i. See DESIGN.md §5 C08.",
-		Trusted:     append([]string{"BLS correctness and SSZ hashing", "util.Scatter partitions [0,n) into disjoint covering extents for every n and GOMAXPROCS (arithmetic over runtime values: not decided)"}, commonTrusted...),
+		Trusted:     append([]string{"BLS correctness and SSZ hashing", "the extent size computed for util.Scatter is positive (not decided; with e <= 0 the helper does not return)"}, commonTrusted...),
 	})
 }
